@@ -29,14 +29,15 @@ DEVS = {
 # the former).  Not a C04/C06 matter: the model follows the code, the check reports it as an observation.
 ALWAYS = {"Code_AfterDestroyOverwrites": True}
 # classes of change the model decides; not in the tree (TLC finds PostOnReturn resp. ForeignUntouched violated when TRUE)
-CLASSES = {"Code_ReleaseSkipsBlanked": False, "Code_MasterUpdateBlanksIds": False}
+CLASSES = {"Code_ReleaseSkipsBlanked": False, "Code_MasterUpdateBlanksIds": False, "Code_FailedClaimerUnlocks": False}
 MASTER_KINDS = {"MASTER_NOEXEC": "noexec", "MASTER_NOIDS": "noids"}
 
 HOOKDEF = {"h1": ("task", "DESTROY", 0), "h2": ("task", "DESTROY", 1), "h3": ("task", "after_DESTROY", 0),
            "d1": ("call", "DESTROY", 0), "d2": ("call", "DESTROY", 1), "d3": ("call", "after_DESTROY", 0)}
 ALLGATES = ["envman.create.snapshot", "envman.create.registered", "task.lock", "td.left", "td.released1", "td.destroyhooks",
             "td.released2", "td.done", "task.kill.send", "env.lock.acquired"]
-C04_INVS = {"OneOwner", "OwnerMatchesListing", "DetExclusive", "KillUnowned", "SelectUnowned", "OwnedInRoster", "LockUnowned",
+C04_INVS = {"OneOwner", "OwnerMatchesListing", "OwnerAgrees", "DetExclusive", "KillUnowned", "SelectUnowned", "OwnedInRoster",
+            "LockUnowned",
             "ReleaseOwn", "CommandOwn",
             "ConflictFails", "HolderUnchanged", "NoCrash"}
 C06_INVS = {"OwnerListed", "PostListed", "PostOwned", "PostOwnedApi", "PostKilled", "PostOrphan", "PostDetectors", "DestroyHooksLast", "Returns",
@@ -396,6 +397,46 @@ def recipe_double_claim(sid, prefix="c", then_destroy=False):
             "classes": classes, "hist": hist}
 
 
+def recipe_failed_claimer(sid, prefix="c"):
+    """Reuse with a FAILING claimer (three calls in flight): e1's task T is kept unlocked; e2 picks T for reuse and is held in
+    its deployment retry loop (its other descriptor cannot be placed); e3, which needs nothing new, picks T as well and
+    locks it; then e2's deployment fails.  T must stay e3's: untouched by e2's failure path and by the next cleanup."""
+    pre = "%s%d" % (prefix, sid)
+    files, classes = {}, {}
+    for r in ("a", "b"):
+        c = "%s%s" % (pre, r)
+        classes[c] = r
+        files["tasks/%s.yaml" % c] = cs.task_class(c)
+    # e2: role b bound to a host that does not exist; e3: a reused task does not report ACTIVE to its new role, its DEPLOY
+    # lasts until deploy_timeout
+    for wf, roles, dt in (("%sw1" % pre, [("a", "h1")], "6s"), ("%sw2" % pre, [("a", "h1"), ("b", "h9")], "6s"),
+                          ("%sw3" % pre, [("a", "h1")], "10s")):
+        y = "".join(cs.role_task(r, "%s%s" % (pre, r), host=h) for r, h in roles)
+        files["workflows/%s.yaml" % wf] = cs.workflow(wf, y, defaults={"deploy_timeout": dt})
+    nod = {"detectors": "[]"}
+    reg, retry = "envman.create.registered", "task.acquire.retry"
+    steps = [{"do": "mutepoint", "point": "envman.released.delivered"},
+             {"do": "create", "env": "e1", "wf": pre + "w1", "vars": nod, "timeout_ms": 30000},
+             {"do": "gate", "point": reg},
+             {"do": "create", "env": "e2", "wf": pre + "w2", "vars": nod, "caller": "A", "timeout_ms": 40000},
+             {"do": "waitgate", "point": reg, "n": 1, "timeout_ms": 8000},
+             {"do": "create", "env": "e3", "wf": pre + "w3", "vars": nod, "caller": "B", "timeout_ms": 40000},
+             {"do": "waitgate", "point": reg, "n": 2, "timeout_ms": 8000}, {"do": "disarm", "point": reg},
+             {"do": "destroy", "env": "e1", "keep_tasks": True, "timeout_ms": 30000},
+             {"do": "gate", "point": retry, "match": {"env": "e2"}}, {"do": "release", "point": reg},
+             {"do": "waitgate", "point": retry, "timeout_ms": 8000}, {"do": "disarm", "point": retry},
+             {"do": "release", "point": reg}, {"do": "settle", "ms": 300}, {"do": "snapshot"},
+             {"do": "release", "point": retry}, {"do": "await", "caller": "A", "timeout_ms": 40000}, {"do": "settle", "ms": 60},
+             {"do": "snapshot"}, {"do": "cleanup", "timeout_ms": 30000}, {"do": "settle", "ms": 100}, {"do": "snapshot"},
+             {"do": "await", "caller": "B", "timeout_ms": 40000}, {"do": "settle", "ms": 60}, {"do": "snapshot"}]
+    mk = lambda b, sc="ok": {"basic": b, "hooks": [], "pend": False, "dets": [], "script": sc}
+    return {"id": sid, "family": "recipe:failed-claimer", "agents": cs.DEFAULT_AGENTS, "files": files,
+            "core": {"flags": ["--reuseUnlockedTasks=true"]}, "scripts": [], "hooks": {}, "steps": steps, "isolated": True,
+            "model": {"reuse": True, "strict": False, "family": "recipe", "kill": "ack",
+                      "envs": {"e1": mk(["a"]), "e2": mk(["a", "b"], "undeployable"), "e3": mk(["a"])}},
+            "classes": classes, "hist": [{"do": "recipe", "name": "reuse-failed-claimer"}]}
+
+
 def run_expect_crash(ctx, s):
     """Run one scenario in a process of its own whose core is predicted to die (the harness lives in the same
     process): returns (died, evidence line, recorded lines)."""
@@ -440,7 +481,7 @@ class Projector:
 
     def fact(self, t):
         return self.facts[self.cur]["tasks"].setdefault(t, {"role": "?", "env": "", "rostered": False, "inactive": False,
-                                                            "triggered": False, "claims": 0})
+                                                            "triggered": False, "claims": 0, "claimers": [], "lockers": []})
 
     def tk(self, t):
         """compact task names: k1, k2, ... in launch order of this scenario (the runner numbers every task it
@@ -456,7 +497,7 @@ class Projector:
         if ev == "Reset":
             self.cur, self.ended, self.launched, self.keepflag, self.alias, self.where = scn, False, set(), {}, {}, {}
             m = self.by_id[scn]["model"]
-            self.facts[scn] = {"tasks": {}, "phase": {}, "lost": set()}
+            self.facts[scn] = {"tasks": {}, "phase": {}, "lost": set(), "failed": set()}
             return {"ev": "Reset", "scn": scn, "model": {"reuse": m["reuse"], "strict": bool(m.get("strict", True)), "envs": m["envs"]}}
         if self.ended or scn != self.cur:
             return None
@@ -469,6 +510,8 @@ class Projector:
             fl = [f for f, k in (("force", "force"), ("allow", "allow_in_running"), ("keep", "keep_tasks")) if ln.get(k)]
             return {"ev": "Api", "scn": scn, "call": ln["call"], "env": ln.get("env", ""), "op": ln.get("op", ""), "flags": fl}
         if ev == "ApiReply":
+            if ln["call"] == "create" and ln.get("code") != "OK":
+                self.facts[scn]["failed"].add(ln.get("env", ""))
             return {"ev": "ApiReply", "scn": scn, "call": ln["call"], "env": ln.get("env", ""), "op": ln.get("op", ""),
                     "code": ln.get("code", ""), "st": ln.get("st", ""), "timeout": bool(ln.get("timeout")),
                     "inuse": "already in use" in ln.get("errtext", ""), "keep": self.keepflag.get(ln.get("env", ""), False)}
@@ -486,6 +529,9 @@ class Projector:
                 self.fact(self.tk(ln["task"]))["rostered"] = True
             elif p == "task.acquire.claim":
                 self.fact(self.tk(ln["task"]))["claims"] += 1
+                self.fact(self.tk(ln["task"]))["claimers"].append(ln.get("env", ""))
+            elif p == "task.lock":
+                self.fact(self.tk(ln["task"]))["lockers"].append(ln.get("env", ""))
             elif p == "task.kill.select" and not ln.get("active"):
                 self.fact(self.tk(ln["task"]))["inactive"] = True
             elif p == "env.teardown.phase":
@@ -641,9 +687,16 @@ def cause_of(inv, s, detail, facts):
         if facts.get("phase", {}).get(e) in ("left", "cancelled"):
             return "release-rendezvous-lost"
         return "other"
-    if inv in ("LockUnowned", "OneOwner", "OwnerMatchesListing", "CommandOwn", "ReleaseOwn", "KillUnowned", "SelectUnowned",
-               "OwnedInRoster"):
+    if inv in ("LockUnowned", "OneOwner", "OwnerMatchesListing", "OwnerAgrees", "CommandOwn", "ReleaseOwn", "KillUnowned",
+               "SelectUnowned", "OwnedInRoster"):
         names = set(re.findall(r'"(k[0-9]+)"', json.dumps(detail, default=str)))
+        # picked for reuse by a deployment that failed without ever locking it, while another environment owns it: whatever
+        # happens to the task then is the doing of the failed create, not of the (known) double claim
+        for t in names:
+            f = tf.get(t, {})
+            if any(e in facts.get("failed", ()) and e not in f.get("lockers", []) for e in f.get("claimers", [])) \
+                    and any(e not in facts.get("failed", ()) or e in f.get("lockers", []) for e in f.get("lockers", [])):
+                return "failed-claimer-unlocks"
         if any(tf.get(t, {}).get("claims", 0) >= 2 for t in names):
             return "double-claim"
         return "other"
